@@ -196,6 +196,33 @@ def step (w : World) (cmd : Sexp) : World × String :=
       let n' := n.updateNodesLiveness w.now
       (w.setNode slot n', pList "ok" [pList "sched" ((n'.scheduledForDeletion w.now).map pId), pNode n'])
     | _, _ => bad w "live"
+  | .list [.atom "catchup", slot, i, kvs, mx, gc] =>
+    match slot.nat?.bind w.node?, slot.nat?, rId i, (rTagged kvs).bind (mapM? rKv), mx.nat?, gc.nat? with
+    | some n, some slot, some i, some kvs, some mx, some gc =>
+      let kvs := kvs.map (fun p => (p.1, ({ p.2 with status := match p.2.status with
+        | .set => .set | .deleted _ => .deleted w.now | .ttl _ => .ttl w.now } : VV)))
+      match n.resetNodeStateIfUpdate i kvs mx gc with
+      | .error e => (w, pPanic e)
+      | .ok (n', evs) => (w.setNode slot n', pList "ok" [pEvents evs, pNode n'])
+    | _, _, _, _, _, _ => bad w "catchup"
+  | .list [.atom "rmcopy", slot, i, remember] =>
+    match slot.nat?.bind w.node?, slot.nat?, rId i, remember.nat? with
+    | some n, some slot, some i, some remember =>
+      let cs := if remember = 1 then n.cs.removeNode i
+                else { n.cs with nodes := AL.erase i n.cs.nodes, gcMemory := AL.erase i n.cs.gcMemory }
+      let fd : FD := { n.fd with windows := AL.erase i n.fd.windows, dead := AL.erase i n.fd.dead,
+                                 live := n.fd.live.filter (fun j => !(j == i)) }
+      let n' := { n with cs := cs, fd := fd }
+      (w.setNode slot n', pList "ok" [pNode n'])
+    | _, _, _, _ => bad w "rmcopy"
+  | .list [.atom "converged"] =>
+    let owners := w.nodes.map (fun p => (p.2.cfg.selfId, p.2.selfState.maxVersion))
+    let ok := w.nodes.all (fun p => owners.all (fun o =>
+      (p.2.scheduledForDeletion w.now).contains o.1 ||
+      match p.2.cs.nodeState o.1 with
+      | some s => s.maxVersion == o.2
+      | none => false))
+    (w, if ok then "(converged yes)" else "(converged no)")
   | .list [.atom "hb", slot, i, hb] =>
     match slot.nat?.bind w.node?, slot.nat?, rId i, hb.nat? with
     | some n, some slot, some i, some hb =>
